@@ -16,6 +16,7 @@ class Pred:
         self.op = op          # for cmp: Lt Le Gt Ge Eq Ne   (meaning args[0] op args[1]); for valid: callee last name
         self.neg = neg
         self.raw = raw
+        self.only = None      # True/False: only that edge of the switch is implied by the predicate (materialised && / ||)
 
     def show(self):
         s = '%s%s(%s)' % (self.kind, ':' + self.op if self.op else '', ', '.join(a.show() for a in self.args))
@@ -67,7 +68,18 @@ def bool_switches(fn, P):
         if t['k'] != 'switch' or t['ty'] != 'bool':
             continue
         e = P.operand(t['op'], b, len(bl['stmts']))
+        only = None
+        es = strip(e)
+        if es.k == 'phi':
+            # a materialised `a && b` / `a || b` (bool returned by a helper, `let ok = ..`): phi(false | X) — the true edge
+            # implies X; phi(true | X) — the false edge implies not X.  The other edge implies nothing about X.
+            consts = [const_int(a) for a in es.args if strip(a).k == 'const']
+            rest = [a for a in es.args if strip(a).k != 'const']
+            if len(rest) == 1 and consts and None not in consts and len(set(consts)) == 1:
+                e = rest[0]
+                only = (consts[0] == 0)     # True: only the true edge is informative
         p = classify(e)
+        p.only = only
         false_t = [tb for v, tb in t['targets'] if v == '0']
         true_edges = [(b, t['otherwise'])]
         false_edges = [(b, x) for x in false_t]
@@ -78,11 +90,29 @@ def bool_switches(fn, P):
         yield b, p, true_edges, false_edges
 
 
+def ret_aliases(fn):
+    """locals whose value is moved/copied (whole) into the return place, transitively: the return place itself, the
+    temporaries of `return f(..)` / `x?` lowering, and the return places of inlined helpers"""
+    al = {0}
+    changed = True
+    while changed:
+        changed = False
+        for b, i, st in fn.stmts():
+            if st['k'] == 'assign' and not st['lhs']['p'] and st['lhs']['l'] in al and st['rv']['k'] == 'use' \
+                    and st['rv']['op']['k'] in ('copy', 'move') and not st['rv']['op']['pl']['p']:
+                src = st['rv']['op']['pl']['l']
+                if src not in al and src > fn.arg_count:
+                    al.add(src)
+                    changed = True
+    return al
+
+
 def ok_sinks(fn, variants=('Result::Ok', 'Option::Some')):
     """blocks that build the success value of the function's return place"""
     out = []
+    al = ret_aliases(fn)
     for b, i, st in fn.stmts():
-        if st['k'] != 'assign' or st['lhs']['l'] != 0 or st['lhs']['p']:
+        if st['k'] != 'assign' or st['lhs']['l'] not in al or st['lhs']['p']:
             continue
         rv = st['rv']
         if rv['k'] == 'aggr' and rv.get('akind') == 'adt':
@@ -125,6 +155,8 @@ def guard(cx, rule, inst, fn, P, sinks, match, want_truth, what, require_fail_bl
         if not match(p):
             continue
         truth = want_truth if not p.neg else (not want_truth)
+        if getattr(p, 'only', None) is not None and p.only != truth:
+            continue       # the edge that would count as "passed" does not imply the predicate here
         passed += te if truth else fe
         failing += fe if truth else te
         sites.append(b)
